@@ -8,9 +8,16 @@ pub fn model_path() -> String {
 
 /// Send all lines, get one answer per line.  Lines are split across `jobs` driver processes.
 pub fn ask(lines: &[String]) -> Vec<String> {
+    crate::watchdog::pause();
+    let r = ask_inner(lines);
+    crate::watchdog::resume();
+    r
+}
+
+fn ask_inner(lines: &[String]) -> Vec<String> {
     let jobs = std::thread::available_parallelism().map(|n| n.get()).unwrap_or(4).min(16);
     if lines.len() < 64 || jobs == 1 {
-        return ask_one(lines);
+        return ask_one_inner(lines);
     }
     let chunk = (lines.len() + jobs - 1) / jobs;
     let mut out: Vec<Vec<String>> = Vec::new();
@@ -33,6 +40,13 @@ pub fn outside_domain(answer: &str) -> bool {
 }
 
 pub fn ask_one(lines: &[String]) -> Vec<String> {
+    crate::watchdog::pause();
+    let r = ask_one_inner(lines);
+    crate::watchdog::resume();
+    r
+}
+
+fn ask_one_inner(lines: &[String]) -> Vec<String> {
     let mut answers = Vec::with_capacity(lines.len());
     // a line on which the driver exceeds the time limit is answered `model-timeout`; the rest go to a fresh driver
     while answers.len() < lines.len() {
